@@ -81,7 +81,7 @@ class EEMSRead(Command):
                 else float(kwargs["MissingValue"])
             )
 
-            self.result.mask = numpy.where(result.data == missing_value, True, result.mask or False)
+            result.mask = numpy.where(result.data == missing_value, True, numpy.ma.getmaskarray(result))
 
         result.data[result.mask] = result.fill_value
 
